@@ -7,3 +7,5 @@ mkdir -p "$HERE/target" "$HERE/evidence" "$HERE/replays"
 cd "$HERE/mc" || exit 2
 cp /repo/Cargo.lock Cargo.lock
 cargo build --offline --profile verif --bin mc || exit 2
+# C20 needs the top-level `mech` crate (src/mechfs.rs): second binary, same harness
+cargo build --offline --profile verif --features fs --bin mcfs || exit 2
